@@ -60,7 +60,7 @@ def _programs():
 def _filters():
   from flax.core.scope import DenyList
   return [False, True, 'state', 'params', ['state'], ['state', 'other'], ('params', 'state'), DenyList('params'), DenyList(['state']),
-          DenyList(DenyList('state')), 'nonexistent']
+          DenyList(DenyList('state')), 'nonexistent', 'params_axes', 'my_state', ['state_2', 'others']]
 
 
 def _layouts(variables):
@@ -70,12 +70,22 @@ def _layouts(variables):
   outs = [('plain', plain), ('frozen', freeze(plain))]
   mixed = {k: freeze(v) for k, v in plain.items()}
   outs.append(('top-plain/collections-frozen', mixed))
+  if 'state' in plain:
+    # the written collection is supplied, but empty (only used under filters that make it mutable)
+    outs.append(('plain/empty-state', dict(plain, state={})))
   return outs
 
 
 def _in_filter(f, c):
-  from flax.core.scope import in_filter
-  return in_filter(f, c)
+  """independent reading of the documented filter semantics (not flax's in_filter)"""
+  from flax.core.scope import DenyList
+  if isinstance(f, bool):
+    return f
+  if isinstance(f, str):
+    return c == f
+  if isinstance(f, DenyList):
+    return not _in_filter(f.deny, c)
+  return c in set(f)
 
 
 def run(tier, seed):
@@ -92,6 +102,8 @@ def run(tier, seed):
     else:
       _, init_vars = core.init(prog)(jax.random.key(0), x)
     for (lname, variables), mut in itertools.product(_layouts(init_vars), _filters()):
+      if lname == 'plain/empty-state' and not _in_filter(mut, 'state'):
+        continue
       cases += 1
       inputs = dict(program=pname, layout=lname, mutable=repr(mut))
       before = _snap(variables)
@@ -136,7 +148,7 @@ def run(tier, seed):
     cases += f[0]
     if f[1]:
       fails.append(f[1])
-  return dict(name=NAME, cases=cases, distinct=cases, bound='5 scope programs x 3 variable layouts x 11 mutable filters (+ linen module-object checks)',
+  return dict(name=NAME, cases=cases, distinct=cases, bound='5 scope programs x 4 variable layouts x 14 mutable filters (+ linen module-object checks)',
               failures=fails[:2], error=None)
 
 
